@@ -107,7 +107,8 @@ PROPS = {
     "C17": {
         "level": "exploration",
         "units": [
-            U("c17", "TestSender", T(12, 16, 300), T(200, 16, 2400)),
+            U("c17", "TestSender", T(12, 12, 300), T(200, 16, 2400)),
+            U("c17", "TestNodeHandsOver", T(4, 8, 300, shrinktime="30s"), T(60, 16, 2400, shrinktime="90s"), needs=["nodeexec"]),
         ],
     },
     "C18": {
